@@ -9,7 +9,7 @@
      ev_pad_concat = the padding + concatenation of EvalBase.__call__. *)
 From Coq Require Import List Arith Reals QArith Qcanon.
 From RL4CO Require Import Base.OField Base.OFieldQc Base.OFieldR Train.EvalRegroup Train.Augment Train.GenEqC15
-  Gen.GenAugment.
+  Train.EvalAggregate Train.SharedStepGrid Gen.GenAugment.
 Import ListNotations.
 Close Scope Qc_scope.
 Close Scope Q_scope.
@@ -286,6 +286,99 @@ Theorem C15_tsp_pad_refuted :
 Proof. exact tsp_pad_refuted. Qed.
 Print Assumptions C15_tsp_pad_refuted.
 
+(* ------------------------------------------------------------------ the aggregates EvalBase.__call__ reports *)
+(* ev_rewards = torch.cat(rewards_list), ev_avg_reward = rewards.mean(): count x avg_reward = sum of all rewards *)
+Theorem C15_avg_reward_is_the_mean_of_the_returned_rewards :
+  forall (K : ofield) (batches : list (list K)),
+    ev_rewards batches <> [] ->
+    (ev_rewards batches = concat batches) /\
+    (ev_avg_reward batches = fsum (ev_rewards batches) / of_nat (length (ev_rewards batches)))%of /\
+    (of_nat (length (ev_rewards batches)) * ev_avg_reward batches = fsum (map fsum batches))%of.
+Proof. exact ev_avg_reward_spec. Qed.
+Print Assumptions C15_avg_reward_is_the_mean_of_the_returned_rewards.
+
+Theorem C15_avg_reward_independent_of_loader_batching :
+  forall (K : ofield) (bs bs' : list (list K)), concat bs = concat bs' -> ev_avg_reward bs = ev_avg_reward bs'.
+Proof. exact ev_avg_reward_batching_irrelevant. Qed.
+Print Assumptions C15_avg_reward_independent_of_loader_batching.
+
+Theorem C15_avg_reward_is_size_weighted_mean_of_batch_means :
+  forall (K : ofield) (batches : list (list K)),
+    ev_rewards batches <> [] ->
+    ev_avg_reward batches =
+      (fsum (map (fun b => of_nat (length b) * fmean b) batches) / of_nat (length (ev_rewards batches)))%of.
+Proof. exact ev_avg_reward_weighted. Qed.
+Print Assumptions C15_avg_reward_is_size_weighted_mean_of_batch_means.
+
+Theorem C15_avg_reward_between_worst_and_best :
+  forall (K : ofield) (lo hi : K) (batches : list (list K)),
+    ev_rewards batches <> [] ->
+    Forall (fun r => fle lo r /\ fle r hi) (ev_rewards batches) ->
+    fle lo (ev_avg_reward batches) /\ fle (ev_avg_reward batches) hi.
+Proof. exact ev_avg_reward_bounds. Qed.
+Print Assumptions C15_avg_reward_between_worst_and_best.
+
+Theorem C15_mean_is_not_the_total :
+  forall (K : ofield) (l : list K), (2 <= length l)%nat -> fsum l <> f0 -> fmean l <> fsum l.
+Proof. exact ev_avg_is_not_the_total. Qed.
+Print Assumptions C15_mean_is_not_the_total.
+
+(* ------------------------------------------------------------------ POMO / SymNCO shared_step over the configuration grid *)
+(* pomo_shared_step A num_starts env_starts phase has_actions reward: SSRaises 2 = the step raises,
+   SSReturns max_reward max_aug_reward = what it hands to log_metrics (flattened; None = key absent) *)
+Theorem C15_pomo_shared_step_raises_exactly_when :
+  forall (R : Type) (leb : R -> R -> bool) (dR : R) (num_augment : nat) (num_starts : option nat) (env_starts : nat)
+         (ph : ss_phase) (has_actions : bool) (reward : list R) (stage : nat),
+    pomo_shared_step leb dR num_augment num_starts env_starts ph has_actions reward = SSRaises stage <->
+    stage = 2%nat /\
+    let n_start := match num_starts with None => env_starts | Some s => s end in
+    ((ph = PhTrain /\ (n_start <= 1)%nat) \/
+     (ph <> PhTrain /\ (1 < num_augment)%nat /\ (n_start <= 1)%nat /\ has_actions = true /\
+      (1 < length reward / (Nat.max num_augment 1 * Nat.max n_start 1))%nat)).
+Proof. exact pomo_raises_iff. Qed.
+Print Assumptions C15_pomo_shared_step_raises_exactly_when.
+
+Theorem C15_symnco_raises_exactly_when :
+  forall (R : Type) (leb : R -> R -> bool) (dR : R) (num_augment : nat) (num_starts : option nat)
+         (ph : ss_phase) (reward : list R) (stage : nat),
+    symnco_shared_step leb dR num_augment num_starts ph reward = SSRaises stage <-> stage = 1%nat /\ num_starts = None.
+Proof. exact symnco_raises_iff. Qed.
+Print Assumptions C15_symnco_raises_exactly_when.
+
+(* multi-start and augmentation on (validation / test): max_aug_reward[b] dominates the reward of every row holding a
+   copy of instance b (row s*(A*B) + a*B + b of the replicated batch) and is the reward of one of them *)
+Theorem C15_pomo_max_aug_reward_is_instance_best :
+  forall (R : Type) (leb : R -> R -> bool) (dR : R),
+    (forall x, leb x x = true) -> (forall x y z, leb x y = true -> leb y z = true -> leb x z = true) ->
+    (forall x y, leb x y = true \/ leb y x = true) ->
+    forall (A S B : nat) (ph : ss_phase) (has_actions : bool) (reward : list R),
+      ph <> PhTrain -> (1 < A)%nat -> (1 < S)%nat -> length reward = (B * A * S)%nat ->
+      exists mr mar,
+        pomo_shared_step leb dR A (Some S) 0 ph has_actions reward = SSReturns (Some mr) (Some mar) /\
+        length mar = B /\ length mr = (B * A)%nat /\
+        forall b, (b < B)%nat ->
+          (forall a s, (a < A)%nat -> (s < S)%nat ->
+             leb (nth (s * (A * B) + a * B + b) reward dR) (nth b mar dR) = true) /\
+          (exists a s, (a < A)%nat /\ (s < S)%nat /\ nth b mar dR = nth (s * (A * B) + a * B + b) reward dR).
+Proof. exact pomo_max_aug_reward_is_instance_best. Qed.
+Print Assumptions C15_pomo_max_aug_reward_is_instance_best.
+
+(* FINDINGS (code as it is) *)
+Theorem C15_pomo_single_start_with_augmentation_refuted :
+  exists (num_augment num_starts : nat) (reward : list Z),
+    (1 < num_augment)%nat /\ num_starts = 1%nat /\
+    pomo_shared_step Z.leb 0%Z num_augment (Some num_starts) 0 PhVal true reward = SSRaises 2.
+Proof. exact pomo_single_start_augment_refuted. Qed.
+Print Assumptions C15_pomo_single_start_with_augmentation_refuted.
+
+Theorem C15_symnco_single_start_max_aug_reward_refuted :
+  exists (num_augment : nat) (reward : list Z) (mar : list Z),
+    symnco_shared_step Z.leb 0%Z num_augment (Some 1%nat) PhVal reward = SSReturns None (Some mar) /\
+    length reward = (1 * num_augment)%nat /\
+    mar <> [rmax Z.leb 0%Z reward] /\ length mar = num_augment.
+Proof. exact symnco_single_start_max_aug_refuted. Qed.
+Print Assumptions C15_symnco_single_start_max_aug_reward_refuted.
+
 (* ------------------------------------------------------------------ the statements about real arithmetic *)
 Theorem C15_dihedral_over_R :
   forall (k : nat) (x1 y1 x2 y2 : R),
@@ -329,3 +422,12 @@ Example C15_nonvacuous_regroup :
   ev_select Z Z.leb nat nat (fun i a => nth a (nth i [[1; 0; 5; 0; 5; 0]; [0; 7; 0; 2; 0; 3]] []) 0)%Z 0%nat 0%Z 3 [0; 1]%nat [0; 1; 2; 3; 4; 5]%nat
   = [(2%nat, 5%Z); (1%nat, 7%Z)].
 Proof. vm_compute. reflexivity. Qed.
+
+Example C15_nonvacuous_shared_step_grid :   (* B = 2, A = 2, S = 2: rows s*(A*B) + a*B + b *)
+  pomo_shared_step Z.leb 0%Z 2 (Some 2%nat) 0 PhTest true [1; 2; 3; 4; 5; 6; 7; 0]%Z
+  = SSReturns (Some [5; 7; 6; 4]%Z) (Some [7; 6]%Z).
+Proof. exact pomo_grid_example. Qed.
+
+Example C15_nonvacuous_avg_reward :
+  ev_avg_reward (K:=QcF) [[qc (-3) 1; qc (-2) 1]; [qc (-1) 1]] = qc (-2) 1.
+Proof. apply Qc_is_canon. vm_compute. reflexivity. Qed.
